@@ -196,6 +196,14 @@ class Date:
         # Retrieve EOP for the given date and store
         eop = EopDb.get(mjd)
 
+        if scale.name != "UTC":
+            # The Earth orientation parameters (and TAI-UTC) are tabulated per UTC day:
+            # for a date given in another scale, close to 0 h, this may not be the day
+            # of its own reading
+            utc_mjd = mjd + scale.offset(mjd, "UTC", eop) / 86400.0
+            if int(utc_mjd) != int(mjd):
+                eop = EopDb.get(utc_mjd)
+
         # Retrieve the offset from REF_SCALE for the current date
         offset = scale.offset(mjd, self.REF_SCALE, eop)
 
